@@ -462,6 +462,107 @@ ENTRY = ["agdb::db::DbImpl::new", "agdb::db::DbImpl::with_data", "agdb::db::DbIm
          "agdb::db::DbImpl::<agdb::storage::any_storage::AnyStorage>::try_new_memory"]
 
 
+# ------------------------------------------------------------------------------------------- R07b untrusted record
+
+def _size_arith_params(fa, body, depth=0):
+    """{param: set(first fields)} of `body`'s parameters that feed an overflow-checked arithmetic operation (directly,
+    or through a workspace callee one level down)."""
+    out = {}
+    for bi, s in cfg.assigns(body):
+        r = s["r"]
+        if r["k"] == "bin" and r["op"].endswith("WithOverflow"):
+            for o in (r["a"], r["b"]):
+                pl = cfg.op_place(o)
+                if pl:
+                    sl, calls, reads = cfg.backward_slice(body, [pl[0]])
+                    for p_, f in reads:
+                        out.setdefault(p_, set()).add(f)
+    if depth < 2:
+        for i, t in cfg.calls(body):
+            cb = fa.body(common.norm(cfg.callee(t) or "")) or fa.body(cfg.callee(t) or "")
+            if cb is None or cb is body:
+                continue
+            sub = _size_arith_params(fa, cb, depth + 1)
+            for k, a in enumerate(t["a"]):
+                if (k + 1) in sub:
+                    o = cfg.op_origin(body, a)
+                    if o and 0 < o[0] <= body.d["argc"]:
+                        fs = {o[1][0]} if o[1] else sub[k + 1]
+                        out.setdefault(o[0], set()).update(fs)
+    return out
+
+
+def untrusted_record_rule(ctx, rule="R07b"):
+    """Storage::read_records: the header decoded from the file (read_record(current_pos)) is *compared* with the space
+    that is left before anything is *computed* from its size: overflow-checked arithmetic on an unvalidated 64-bit size
+    panics (debug / overflow-checks builds) or wraps past the test (release)."""
+    fa = ctx.facts
+    b = ctx.anchor(rule, "agdb::storage::Storage::read_records")
+    if not b:
+        return
+    loops = cfg.sccs(b)
+    rr = [(i, t) for i, t in cfg.calls(b) if common.norm(cfg.callee(t) or "") == "agdb::storage::Storage::read_record"
+          and any(i in c for c in loops)]
+    ctx.ob(rule, "read_records:loop-read", len(rr) == 1, "one read_record(current_pos) inside the scan loop" if len(rr) == 1 else
+           "read_records: expected exactly one read_record call inside the scan loop, found %d" % len(rr), b.where)
+    if len(rr) != 1:
+        return
+    i0, t0 = rr[0]
+    der = cfg.derived_locals(b, [t0["d"][0]])
+    # the guard: a comparison of record.size itself with a value not computed from the record
+    pass_edges = []
+    for bi, s in cfg.assigns(b):
+        r = s["r"]
+        if r["k"] != "bin" or r["op"] not in ("Lt", "Le", "Gt", "Ge") or len(s["l"]) != 1:
+            continue
+        sides = []
+        for o in (r["a"], r["b"]):
+            pl = cfg.op_place(o)
+            og = cfg.origin(b, pl) if pl else None
+            sides.append("size" if (pl and pl[0] in der and og and og[1][-1:] == [".size"] and og[0] in der) else
+                         ("rec" if (pl and pl[0] in der) else "other"))
+        if sorted(sides) != ["other", "size"]:
+            continue
+        size_right = sides[1] == "size"
+        # reject-if:  X < size, X <= size, size > X, size >= X   -> permitted on the false edge
+        # accept-if:  size <= X, size < X, X >= size, X > size   -> permitted on the true edge
+        reject_form = (size_right and r["op"] in ("Lt", "Le")) or (not size_right and r["op"] in ("Gt", "Ge"))
+        for sw in cfg.bool_switches(b, cfg.derived_locals(b, [s["l"][0]])):
+            pass_edges.append(sw["false_edge"] if reject_form else sw["true_edge"])
+    ctx.ob(rule, "read_records:size-compared", bool(pass_edges),
+           "record.size is compared with the remaining space (%d test)" % len(pass_edges) if pass_edges else
+           "read_records no longer compares the decoded record.size itself with a value that does not depend on the record",
+           b.loc(i0))
+    if not pass_edges:
+        return
+    early = cfg.reachable(b, [0], removed_edges=pass_edges)[0]
+    bad = []
+    for bi, s in cfg.assigns(b):
+        r = s["r"]
+        if bi in early and r["k"] == "bin" and r["op"].endswith("WithOverflow"):
+            if any(cfg.op_place(o) and cfg.op_place(o)[0] in der for o in (r["a"], r["b"])):
+                bad.append((b.loc(bi), "%s on the unvalidated record" % r["op"]))
+    for i, t in cfg.calls(b):
+        if i not in early or i == i0:
+            continue
+        cb = fa.body(common.norm(cfg.callee(t) or "")) or fa.body(cfg.callee(t) or "")
+        if cb is None:
+            continue
+        sub = _size_arith_params(fa, cb)
+        for k, a in enumerate(t["a"]):
+            pl = cfg.op_place(a)
+            if pl and pl[0] in der and (k + 1) in sub:
+                og = cfg.origin(b, pl)
+                fld = og[1][0] if og[1] else None
+                if fld in (None, ".size") and (fld == ".size" or ".size" in sub[k + 1] or None in sub[k + 1]):
+                    bad.append((b.loc(i), "%s computes with the size of the unvalidated record" % cfg.callee(t).split("::")[-1]))
+    ctx.ob(rule, "read_records:compare-before-compute", not bad,
+           "nothing is computed from the decoded size before the test passes" if not bad else
+           "read_records computes with the size field decoded from the file before it has been compared with the "
+           "remaining space: %s (a damaged size near u64::MAX overflows: panic, or wrap-around past the test)" % bad,
+           bad[0][0] if bad else b.where)
+
+
 def run(ctx):
     fa = ctx.facts
     roots = [ctx.anchor("R07", p) for p in ENTRY]
@@ -471,4 +572,5 @@ def run(ctx):
     # floor: 150 sites were counted when the rule was written; the fix commits (PathSearch expect, MemoryStorage::read,
     # derive `.get()`, ...) removed four of them
     run_panic_rule(ctx, "R07", roots + qs, JUSTIFIED, floor=140)
+    untrusted_record_rule(ctx)
     return 0
